@@ -4,7 +4,7 @@ import inspect
 import itertools
 
 import common
-from common import Result, parse_kv, call_real, w_text, w_frac, frac_of, CODE_WIRE
+from common import Result, parse_kv, call_real_limited as call_real, w_text, w_frac, frac_of, CODE_WIRE
 
 LEVEL_TEXT = (
     'Lean theorems, for ALL operand values and ANY function body: an error operand of the twelve infix '
@@ -31,7 +31,7 @@ TRUSTED = [
 ASSUMPTIONS = [
     'IS*/COUNT family, IF/AND/OR/NOT (C10), CHOOSE value arguments, SUMIF/SUMIFS (pandas 3 removed applymap), '
     'volatile and argument-less functions are outside the error-propagation clause',
-    'operands are finite; texts that Python reads as inf/nan are excluded (finding D23 of C08)',
+    'operands are finite numbers; texts that Python reads as inf/nan are TEXT that is not numeric (#VALUE! in arithmetic; D23a, fixed)',
 ]
 
 CODES = ['#NULL!', '#DIV/0!', '#VALUE!', '#REF!', '#NAME?', '#NUM!', '#N/A']
@@ -249,7 +249,7 @@ def run(ctx):
     # the "value or #VALUE!/#DIV/0!/#NUM!, never a Python exception" clause is demanded here.
     awkward_texts = ['9999999999-01-01', '12:99999999999999999999', '1/1/99999999999999999999',
                      'Jan 99999999999999999999999999', '99999999999999999999999999999999999999999999', '1-1-1-1-1-1-1',
-                     '0000-00-00', '24:61:61', '١٢', '1e999', '-1e999', '0x10', '1,5', '$3', '3%', '\x00']
+                     '0000-00-00', '24:61:61', '١٢', '1e999', '-1e999', 'inf', '-inf', 'nan', 'Infinity', '0x10', '1,5', '$3', '3%', '\x00']
     blanks = [('singleton', ft.BLANK), ('fresh', ft.Blank(None)), ('fresh2', ft.Blank(None))]
     others = [typed(v) for v in (0, 2.5, 'abc', '', True, False, datetime.datetime(2020, 1, 1))]
     tcases = []
@@ -510,8 +510,8 @@ def run(ctx):
 
 def numeric_text(t):
     try:
-        float(t)
-        return True
+        import math
+        return math.isfinite(float(t))
     except ValueError:
         return t.lower() in ('true', 'false')
 
